@@ -17,3 +17,13 @@ func lemmaSign1SignThenVerify(m *Sign1Message, rand io.Reader, external []byte, 
 	}
 	return m.Verify(external, verifier)
 }
+
+// lemmaSign1DecodeThenVerify: what reaches the verifier for a received
+// COSE_Sign1 is built from the received bytes (C02, C07, C09).
+func lemmaSign1DecodeThenVerify(data, external []byte, verifier Verifier) (*Sign1Message, error) {
+	m := new(Sign1Message)
+	if err := m.UnmarshalCBOR(data); err != nil {
+		return nil, nil
+	}
+	return m, m.Verify(external, verifier)
+}
